@@ -24,8 +24,8 @@ Lemma w_settlement :
     (forall t k, In t (sorted_txs w_block_state) -> tx_pool t = Some k ->
        In k w_K /\ LDk w_oracle k <> fst k /\ LDk w_oracle k <> snd k) /\
     NoDup (key_pairs (sorted_txs w_block_state)) /\
-    (forall t c, In t (sorted_txs w_block_state) -> s_coins w_block_state !! key0 t = Some c -> as_declared c (out0 t)) /\
-    (forall t c, In t (sorted_txs w_block_state) -> s_coins w_block_state !! key1 t = Some c -> as_declared c (out1 t)) /\
+    (forall t c, In t (sorted_txs w_block_state) -> s_coins w_block_state !! key0 t = Some c -> as_declared t c (out0 t)) /\
+    (forall t c, In t (sorted_txs w_block_state) -> s_coins w_block_state !! key1 t = Some c -> as_declared t c (out1 t)) /\
     nsum (map (fun t => cd_value (out0 t)) (sorted_txs w_block_state)) < U128 /\
     nsum (map (fun t => cd_value (out1 t)) (sorted_txs w_block_state)) < U128 /\
     (forall k p'' m, In k w_K ->
